@@ -258,12 +258,31 @@ def _value_const_ints(val: Optional[ir.Value]) -> Optional[Tuple[int, ...]]:
     return tuple(int(x) for x in np_arr.reshape(-1).tolist())
 
 
+def _is_named_symbolic_dim(dim: Any) -> bool:
+    if dim is None or isinstance(dim, (int, np.integer)):
+        return False
+    value = getattr(dim, "value", dim)
+    return value is not None
+
+
 def _shapes_compatible(a: Optional[ir.Value], b: Optional[ir.Value]) -> bool:
     ta, tb = _shape_tuple(a), _shape_tuple(b)
     if ta is None or tb is None or len(ta) != len(tb):
         return False
-    for da, db in zip(ta, tb):
+    dims_a = _shape_dims_seq(a.shape) if a is not None else None
+    dims_b = _shape_dims_seq(b.shape) if b is not None else None
+    for axis, (da, db) in enumerate(zip(ta, tb)):
         if da == -1 or db == -1:
+            # Two *named* symbols are only interchangeable when they are the
+            # same symbol; unknown dims keep acting as wildcards.
+            if dims_a is not None and dims_b is not None:
+                sym_a, sym_b = dims_a[axis], dims_b[axis]
+                if (
+                    _is_named_symbolic_dim(sym_a)
+                    and _is_named_symbolic_dim(sym_b)
+                    and _dim_token(sym_a) != _dim_token(sym_b)
+                ):
+                    return False
             continue
         if da != db:
             return False
